@@ -28,7 +28,15 @@ import (
 
 func c19Gen(r *sim.Rand, tier string) *sim.Case {
 	cs := &sim.Case{Knobs: map[string]int64{}}
-	cs.Variant = sim.Pick(r, "random", "random", "random", "backlogged", "backlogged", "backlogged", "unlimited", "ctl", "dhcp")
+	cs.Variant = sim.Pick(r, "random", "random", "random", "backlogged", "backlogged", "backlogged", "unlimited", "ctl", "dhcp", "mapfull")
+	if cs.Variant == "mapfull" {
+		// control plane only: a policy is refused because a kernel map is full, a slot is freed, the
+		// control plane sets the same policy again
+		cs.Knobs["mode"] = int64(r.N(2)) // 0: both maps full (through other subscribers), 1: only the ingress map (foreign keys)
+		cs.Knobs["krate"] = int64(r.Range(1, 50))
+		cs.Knobs["retries"] = int64(r.Range(1, 3))
+		return cs
+	}
 	if cs.Variant == "ctl" {
 		// control plane only: an operator replaces a named policy while sessions are being put on it
 		cs.Knobs["nver"] = int64(r.Range(2, 5))
@@ -204,6 +212,10 @@ func c19Run(c *sim.Ctx) {
 	}
 	if cs.Variant == "ctl" {
 		c19Ctl(c, pm, mgr, egress, ingressM)
+		return
+	}
+	if cs.Variant == "mapfull" {
+		c19MapFull(c, mgr, egress, ingressM)
 		return
 	}
 	sub := net.IPv4(10, 7, 0, 42).To4()
@@ -519,4 +531,100 @@ func init() {
 		Assumptions: []string{"one CPU runs the program on a bucket at a time (no concurrent in-kernel updates)", "native code generation instead of the BPF back end",
 			"backlogged = the next packet is offered the instant the previous one was admitted, a refused packet is offered again within the time one maximum packet's worth of tokens accrues, and burst >= 2 maximum packets"},
 	})
+}
+
+// c19MapFull: "the policy set through the control plane is the one enforced" across a transient
+// refusal. The kernel maps (16 entries) are full when the subscriber's policy is set, so the call
+// fails; a slot is freed and the control plane sets the same policy again. Whenever that call
+// reports success, both directions must hold exactly the buckets the same policy produced for a
+// reference subscriber (no bucket = unlimited traffic, an old bucket = another contract).
+func c19MapFull(c *sim.Ctx, mgr *qos.Manager, egress, ingressM *cebpf.Map) {
+	cs := c.Case
+	k := uint64(cs.Knob("krate", 1))
+	if k < 1 || k > 1000 {
+		k = 1
+	}
+	pol := func(ip net.IP) *qos.SubscriberQoS {
+		return &qos.SubscriberQoS{IP: ip, DownloadBPS: k * 1_000_000, UploadBPS: k * 300_000, BurstBytes: uint32(k) * 20_000, Priority: uint8(k % 8), PolicyName: "p"}
+	}
+	type bucket struct {
+		rate  uint64
+		burst uint32
+		prio  uint8
+	}
+	read := func(m *cebpf.Map, ip net.IP) (bucket, bool) {
+		key := qos.VerifIPKey(ip)
+		var tb qos.TokenBucket
+		if err := m.Lookup(&key, &tb); err != nil {
+			return bucket{}, false
+		}
+		return bucket{tb.RateBPS, tb.BurstBytes, tb.Priority}, true
+	}
+	ref := net.IPv4(10, 7, 9, 9).To4()
+	if err := mgr.SetSubscriberQoS(pol(ref)); err != nil {
+		c.S.Probe("mapfull_reference_refused")
+		return
+	}
+	refE, okE := read(egress, ref)
+	refI, okI := read(ingressM, ref)
+	if !okE || !okI {
+		c.Fail("policy", "mapfull/reference-not-installed", "SetSubscriberQoS succeeded for the reference subscriber but a direction holds no bucket (egress %v ingress %v)", okE, okI)
+		return
+	}
+	mode := cs.Knob("mode", 0)
+	var fillers []net.IP
+	for i := 0; i < 15; i++ {
+		ip := net.IPv4(10, 8, 0, byte(i+1)).To4()
+		if mode == 0 {
+			if err := mgr.SetSubscriberQoS(pol(ip)); err != nil {
+				c.S.Probe("mapfull_filler_refused")
+				return
+			}
+		} else {
+			key := qos.VerifIPKey(ip)
+			if err := ingressM.Put(&key, &qos.TokenBucket{RateBPS: 1}); err != nil {
+				c.S.Probe("mapfull_filler_refused")
+				return
+			}
+		}
+		fillers = append(fillers, ip)
+	}
+	sub := net.IPv4(10, 7, 0, 42).To4()
+	n := int(cs.Knob("retries", 1))
+	refused := 0
+	for i := 0; i < n; i++ {
+		if err := mgr.SetSubscriberQoS(pol(sub)); err != nil {
+			refused++
+			c.S.Fault("kmap.full")
+		}
+		c.OpsDone++
+	}
+	if refused == 0 {
+		c.S.Probe("mapfull_set_accepted_on_full_map")
+	}
+	// a slot is freed
+	if mode == 0 {
+		if err := mgr.RemoveSubscriberQoS(fillers[0]); err != nil {
+			c.S.Probe("mapfull_remove_failed")
+			return
+		}
+	} else {
+		key := qos.VerifIPKey(fillers[0])
+		_ = ingressM.Delete(&key)
+	}
+	c.OpsDone++
+	err := mgr.SetSubscriberQoS(pol(sub))
+	c.OpsDone++
+	if err != nil {
+		c.S.Probe("mapfull_retry_refused")
+		return
+	}
+	gotE, okE := read(egress, sub)
+	gotI, okI := read(ingressM, sub)
+	switch {
+	case !okE || !okI:
+		c.Fail("policy", "mapfull/accepted-policy-not-installed", "SetSubscriberQoS(%d Mbit/s) reported success after %d refusal(s) on a full map, but the kernel maps hold no bucket for the subscriber (egress present %v, ingress present %v): its traffic is not limited", k, refused, okE, okI)
+	case gotE != refE || gotI != refI:
+		c.Fail("policy", "mapfull/accepted-policy-differs", "SetSubscriberQoS(%d Mbit/s) reported success after %d refusal(s), the maps hold egress %+v ingress %+v; the same policy on the reference subscriber gave egress %+v ingress %+v", k, refused, gotE, gotI, refE, refI)
+	}
 }
